@@ -21,23 +21,36 @@ CONSTANTS NMsgs,      \* number of messages the sender sends
           MaxChunk,   \* largest fragment (in cells) one Arrive may deliver
           Stricts,    \* subset of BOOLEAN: strict-kex settings explored (seqno reset at NEWKEYS)
           Zlibs,      \* subset of BOOLEAN: compression settings explored
+          Modes,      \* subset of {"classic", "etm", "aead"}: framing / verification modes a key epoch may have
+          Partial,    \* TRUE: also explore the receiver inside read_all (header partly consumed, socket
+                      \*       timeouts, the need-rekey flag); FALSE: read_message is one step
           Mutations   \* seeded defects a behaviour may start with (cfg.mut), to show the properties bite:
                       \*   "nomac"  receiver skips MAC / tag verification
                       \*   "noseq"  sequence number left out of the MAC input
                       \*   "zout"   _activate_outbound keeps the old deflater
                       \*   "zin"    _activate_inbound keeps the old inflater
+                      \*   "stalemode"  the "MAC is compared after decryption" decision is remembered from an earlier
+                      \*                key epoch (switched off by an ETM / AEAD epoch, never switched on again)
+                      \*   "rekeydrop"  the idle-read NeedRekeyException also fires when part of the next packet's
+                      \*                header has already been consumed (those bytes are lost)
 
-VARIABLES cfg,        \* [strict, zlib, mut]: fixed per behaviour; mut = "none" is the code as it is
+VARIABLES cfg,        \* [strict, zlib, mode0, mut]: fixed per behaviour; mode0 = mode of the first key epoch,
+                      \* mut = "none" is the code as it is
           sent,       \* Seq of message ids handed to send_message, in order
           wire,       \* Seq of packet records written to the socket and not yet consumed
           arrived,    \* how many cells of `wire` (from its head) reached the receiver's socket
           sseq, sepoch, szid, szpos,      \* sender: sequence number, key epoch, deflater id / position
+          smode,                          \* sender: framing mode of its current key epoch
           rseq, repoch, rzid, rzpos,      \* receiver: the same
+          rmode,      \* receiver: framing mode of its current key epoch (etm / aead verify before decrypting)
+          rtrail,     \* receiver: "compare the MAC after decryption" (what classic mode needs)
+          rneed,      \* receiver: Packetizer.__need_rekey is raised (we have asked for a key exchange)
+          taken,      \* receiver: cells of the head packet's HEADER that read_all has consumed so far (0..2)
           delivered,  \* Seq of what read_message returned: message id, or Alien
           rstate,     \* "ok" | "failed" (exception) | "waiting" (blocked for bytes that never come)
           nsw, ntamper
-svars == <<sseq, sepoch, szid, szpos>>
-rvars == <<rseq, repoch, rzid, rzpos, delivered, rstate>>
+svars == <<sseq, sepoch, szid, szpos, smode>>
+rvars == <<rseq, repoch, rzid, rzpos, rmode, rtrail, rneed, taken, delivered, rstate>>
 vars  == <<cfg, sent, wire, arrived, svars, rvars, nsw, ntamper>>
 
 Cells == 4     \* a packet arrives in up to 4 pieces: part of the first block | rest of it | part of the body | rest + MAC
@@ -51,17 +64,20 @@ CeilDiv(a, b) == (a + b - 1) \div b
 
 Pkt(mid, kind) == [mid |-> mid, kind |-> kind, seq |-> sseq, epoch |-> sepoch,
                    zid |-> szid, zpos |-> szpos,
+                   next |-> smode,      \* (NEWKEYS) the mode of the epoch it opens
                    intact |-> TRUE,     \* no byte of it was changed
                    dirty  |-> FALSE,    \* length / padding-length / payload bytes were changed
                    lenok  |-> TRUE,     \* the length field (hence the framing) is as sent
                    whole  |-> TRUE]     \* FALSE: the stream ends inside this packet
 
+Lost(p)   == [p EXCEPT !.intact = FALSE, !.dirty = TRUE, !.lenok = FALSE]     \* a packet whose framing is gone
 CheckMac  == cfg.mut # "nomac"
 MacHasSeq == cfg.mut # "noseq"
 FreshZOut == cfg.mut # "zout"
 FreshZIn  == cfg.mut # "zin"
 
-Init == /\ cfg \in [strict : Stricts, zlib : Zlibs, mut : {"none"} \cup Mutations]
+Init == /\ cfg \in [strict : Stricts, zlib : Zlibs, mode0 : Modes, mut : {"none"} \cup Mutations]
+        /\ smode = cfg.mode0 /\ rmode = cfg.mode0 /\ rtrail = (cfg.mode0 = "classic") /\ rneed = FALSE /\ taken = 0
         /\ sent = <<>> /\ wire = <<>> /\ arrived = 0
         /\ sseq = 0 /\ sepoch = 0 /\ szid = 0 /\ szpos = 0
         /\ rseq = 0 /\ repoch = 0 /\ rzid = 0 /\ rzpos = 0
@@ -75,13 +91,14 @@ SendMessage ==
     /\ wire' = Append(wire, Pkt(Len(sent) + 1, "data"))
     /\ sseq' = (sseq + 1) % SeqMod
     /\ szpos' = IF cfg.zlib THEN szpos + 1 ELSE szpos
-    /\ UNCHANGED <<cfg, arrived, sepoch, szid, rvars, nsw, ntamper>>
+    /\ UNCHANGED <<cfg, arrived, sepoch, szid, smode, rvars, nsw, ntamper>>
 
 \* _activate_outbound: NEWKEYS goes out under the old keys (and through the old deflater), then the
-\* keys, the deflater and (strict kex) the sequence number are replaced
-ActivateOutbound ==
-    /\ nsw < MaxSwitch
-    /\ wire' = Append(wire, Pkt(NK, "newkeys"))
+\* keys, the algorithms (mode m), the deflater and (strict kex) the sequence number are replaced
+ActivateOutbound(m) ==
+    /\ nsw < MaxSwitch /\ m \in Modes
+    /\ wire' = Append(wire, [Pkt(NK, "newkeys") EXCEPT !.next = m])
+    /\ smode' = m
     /\ sseq' = IF cfg.strict THEN 0 ELSE (sseq + 1) % SeqMod
     /\ sepoch' = sepoch + 1
     /\ szid'  = IF cfg.zlib /\ FreshZOut THEN sepoch + 1 ELSE szid
@@ -97,7 +114,10 @@ Arrive(k) ==
     /\ UNCHANGED <<cfg, sent, wire, svars, rvars, nsw, ntamper>>
 
 (* ---- receiver ---- *)
-Verifies(p) == \/ ~CheckMac
+\* read_message: ETM checks the MAC before decrypting, AES-GCM authenticates while decrypting; in classic mode
+\* the MAC is compared after decryption - `if mac_size_in > 0 and not etm_in and not aead_in`
+MacSkipped  == ~CheckMac \/ (rmode = "classic" /\ ~rtrail)
+Verifies(p) == \/ MacSkipped
                \/ /\ p.intact /\ p.whole
                   /\ p.epoch = repoch
                   /\ (MacHasSeq => p.seq = rseq)
@@ -128,10 +148,37 @@ ReadMessage ==
                    /\ delivered' = IF p.kind = "data"
                                      THEN Append(delivered, IF p.dirty \/ ~Inflates(p) THEN Alien ELSE p.mid)
                                      ELSE delivered
-              ELSE UNCHANGED <<rseq, repoch, rzid, rzpos, delivered>>
+                   \* _activate_inbound -> set_inbound_cipher(etm=..., aead=...)
+                   /\ rmode'  = IF p.kind = "newkeys" THEN p.next ELSE rmode
+                   /\ rtrail' = IF p.kind # "newkeys" THEN rtrail
+                                ELSE IF p.next # "classic" THEN FALSE
+                                ELSE IF cfg.mut = "stalemode" THEN rtrail ELSE TRUE
+              ELSE UNCHANGED <<rseq, repoch, rzid, rzpos, delivered, rmode, rtrail>>
+    /\ taken' = 0 /\ rneed' = rneed
     /\ wire' = Tail(wire)
     /\ arrived' = arrived - Cells
     /\ UNCHANGED <<cfg, sent, svars, nsw, ntamper>>
+
+(* ---- inside read_all(header, check_rekey=True), explored when Partial ---- *)
+\* a counter reached its limit / we sent KEXINIT: the flag stays up until the peer's NEWKEYS has been handled
+RaiseNeedRekey == /\ Partial /\ ~rneed /\ rneed' = TRUE
+                  /\ UNCHANGED <<cfg, sent, wire, arrived, svars, rseq, repoch, rzid, rzpos, rmode, rtrail, taken,
+                                  delivered, rstate, nsw, ntamper>>
+\* a socket read returned part of the first block of the next packet
+Consume == /\ Partial /\ rstate = "ok" /\ wire # <<>> /\ taken < 2 /\ taken < arrived
+           /\ taken' = taken + 1
+           /\ UNCHANGED <<cfg, sent, wire, arrived, svars, rseq, repoch, rzid, rzpos, rmode, rtrail, rneed,
+                           delivered, rstate, nsw, ntamper>>
+\* the socket timed out in the middle of the header, need_rekey is up: `if check_rekey and len(out) == 0 and
+\* self.__need_rekey: raise NeedRekeyException()` - only with NOTHING of the packet consumed, which leaves the
+\* stream untouched (the run loop just calls read_message again).  A version that raises with bytes consumed
+\* throws those bytes away: the rest of the packet is garbage to the receiver.
+NeedRekeyOnIdle ==
+    /\ Partial /\ rstate = "ok" /\ rneed /\ wire # <<>> /\ arrived < 2 /\ taken = arrived
+    /\ taken > 0 /\ cfg.mut = "rekeydrop"         \* (taken = 0: no state changes at all)
+    /\ wire' = [wire EXCEPT ![1] = Lost(wire[1])] /\ taken' = 0
+    /\ UNCHANGED <<cfg, sent, arrived, svars, rseq, repoch, rzid, rzpos, rmode, rtrail, rneed, delivered, rstate,
+                    nsw, ntamper>>
 
 (* ---- attacker on the ciphertext stream (only on packets no byte of which has arrived yet) ---- *)
 Untouched(i) == i \in 1..Len(wire) /\ i > CeilDiv(arrived, Cells)
@@ -141,7 +188,6 @@ Attack(w) == /\ ntamper < MaxTamper /\ ntamper' = ntamper + 1 /\ wire' = w
 Mark(p, r) == [p EXCEPT !.intact = FALSE,
                         !.dirty  = p.dirty \/ r \in DirtyRegions,
                         !.lenok  = p.lenok /\ r # "length"]
-Lost(p)    == [p EXCEPT !.intact = FALSE, !.dirty = TRUE, !.lenok = FALSE]
 \* change the value of one byte in region r of packet i
 Flip(i, r)  == Untouched(i) /\ r \in Regions /\ Attack([wire EXCEPT ![i] = Mark(wire[i], r)])
 \* remove / add one byte inside packet i: its own framing is lost (and with it the framing of whatever is
@@ -158,13 +204,15 @@ Attacker == \E i \in 1..(NMsgs + MaxSwitch + 1) :
                \/ \E r \in Regions : Flip(i, r)
                \/ DelByte(i) \/ Drop(i) \/ Replay(i) \/ Swap(i) \/ Cut(i)
 
-Next == SendMessage \/ ActivateOutbound \/ ReadMessage \/ (\E k \in 1..MaxChunk : Arrive(k)) \/ Attacker
+Next == SendMessage \/ (\E m \in Modes : ActivateOutbound(m)) \/ ReadMessage \/ (\E k \in 1..MaxChunk : Arrive(k)) \/ Attacker
+        \/ RaiseNeedRekey \/ Consume \/ NeedRekeyOnIdle
 Spec == Init /\ [][Next]_vars
 
 (* ---- properties (of the code as it is: cfg.mut = "none") ---- *)
 TypeOK == /\ arrived \in 0..(Cells * Len(wire))
           /\ rstate \in {"ok", "failed", "waiting"}
           /\ sseq \in 0..(SeqMod - 1) /\ rseq \in 0..(SeqMod - 1)
+          /\ taken \in 0..2 /\ rmode \in Modes /\ smode \in Modes
 PrefixOnly0   == IsPrefix(delivered, sent)                                   \* C02 and C01: order, no dup, no alien
 NoAlien0      == \A i \in 1..Len(delivered) : delivered[i] # Alien
 AllDelivered0 == (ntamper = 0 /\ wire = <<>> /\ rstate = "ok") => delivered = sent      \* C01: no loss
@@ -172,7 +220,8 @@ NeverFailsHonest0 == ntamper = 0 => rstate = "ok"                            \* 
 \* C01, the reason it works: on an honest network the receiver is always positioned exactly where the
 \* packet at the head of the wire was sealed (keys, sequence number, compression stream)
 SyncHonest0   == (ntamper = 0 /\ wire # <<>>) =>
-                   LET p == Head(wire) IN /\ p.seq = rseq /\ p.epoch = repoch
+                   LET p == Head(wire) IN /\ p.seq = rseq /\ p.epoch = repoch /\ p.intact
+                                          /\ (rmode = "classic" => rtrail)
                                           /\ (cfg.zlib => p.zid = rzid /\ p.zpos = rzpos)
 Asis == cfg.mut = "none"
 PrefixOnly       == Asis => PrefixOnly0
